@@ -30,6 +30,10 @@ theorem C05_rights_shrink_K (p : Pos) (m : Move) (c : Color) :
 theorem C05_rights_shrink_Q (p : Pos) (m : Move) (c : Color) :
     (apply p m).castleQ c = true → p.castleQ c = true := rights_shrinkQ
 
+theorem C05_rights_shrink (p : Pos) (m : Move) (c : Color) :
+    ((apply p m).castleK c = true → p.castleK c = true) ∧ ((apply p m).castleQ c = true → p.castleQ c = true) :=
+  ⟨rights_shrinkK, rights_shrinkQ⟩
+
 theorem C05_men_shrink (p : Pos) (m : Move) (c : Color) (h : pseudoLegal p m = true) :
     count (apply p m) (·.2 == c) ≤ count p (·.2 == c) := men_shrink h c
 
